@@ -12,7 +12,7 @@ def s_jobs(tier):
     return [chrun.SJob("vlib.sh.c06b", "c06b", base.parts(30), 300 if tier == "quick" else 900,
                        what="resolve_syntatic_sugar on constructor calls of 6 dataclasses (incl. one with an init=False field and one with a keyword-only field) and 4 NamedTuples (1..4 fields, with and without defaults) at the top of "
                             "a lambda body and nested in a tuple inside an inner lambda; symbolic: number of positional arguments (incl. one surplus), keyword mask, "
-                            "keyword order, an unknown keyword, the argument values (unbounded ints); oracle: each supplied argument appears under the field Python "
+                            "keyword order, an unknown keyword, a starred last positional argument, the argument values (unbounded ints); oracle: each supplied argument appears under the field Python "
                             "binds it to, surplus/unknown arguments raise ValueError")]
 
 
